@@ -17,7 +17,7 @@ def make(tier):
     P = Plan('C07', level='model_checking', design_ref='DESIGN.md section 5 C07')
     P.meta += ['history induction: every constructor establishes, and every operation preserves, the representation invariant (first <= last <= cap inside one allocation) and refines the std::vector model; the per-operation steps are checked from EVERY well-formed vector with capacity <= 4 and symbolic contents, so histories of any length over vectors within that capacity bound follow']
     P.workers = 5
-    P.not_decided += ['raw_vector comparison, dynamic_array, io::read_chars', 'element types other than int (cheap operations) / unsigned char (insert and resize family); capacities above 4']
+    P.not_decided += ['dynamic_array, io::read_chars', 'element types other than int (cheap operations) / unsigned char (insert and resize family); capacities above 4']
     C = {}
     C['vf_rv_push_back'] = ([ST], 'o->size == n + 1 && o->cap >= o->size && ' + elems(lambda k: '(%s < n ? %s : x)' % (k, A(k)), 5), 'push_back appends')
     C['vf_rv_push_back_alias'] = ([ST, 'k < n'], 'o->size == n + 1 && o->cap >= o->size && ' + elems(lambda k: '(%s < n ? %s : %s)' % (k, A(k), A('k')), 5), 'push_back(v[k]) appends the OLD value of the element (value aliasing an element, also across reallocation)')
@@ -83,9 +83,19 @@ def make(tier):
     for f, (req, ens, what) in B.items():
         uq.contract(f, cls='B', unwind=10, bound='container::buffer<unsigned char> with capacity <= 4 (every well-formed read/write split, symbolic contents), requests of at most 3 elements; memmove/memcpy with symbolic size = byte-loop model of at most 8 bytes',
                     backends=['sat', 'cvc5'], timeout=1200, what='buffer: ' + what, cbmc=['--memory-leak-check'])
+    # ---- comparison (two vectors of at most 2 elements each): == is size + elementwise, < is lexicographic
+    EQV = '(n1 == n2 && (n1 < 1 || a0 == b0) && (n1 < 2 || a1 == b1))'
+    LTV = lambda n1, a0, a1, n2, b0, b1: '(%s == 0 ? (%s > 0) : (%s == 0 ? 0 : (%s < %s ? 1 : (%s > %s ? 0 : (%s == 1 ? (%s > 1) : (%s == 1 ? 0 : %s < %s))))))' % (n1, n2, n2, a0, b0, a0, b0, n1, n2, n2, a1, b1)
+    LT12 = LTV('n1', 'a0', 'a1', 'n2', 'b0', 'b1'); LT21 = LTV('n2', 'b0', 'b1', 'n1', 'a0', 'a1')
+    CMP = {'vf_rv_eq': (EQV, '== holds exactly for equal size and equal elements'), 'vf_rv_ne': ('!' + EQV, '!= is the negation of =='), 'vf_rv_lt': (LT12, '< is the lexicographic order'),
+           'vf_rv_gt': (LT21, '> is < with swapped operands'), 'vf_rv_le': ('!' + LT21, '<= is not >'), 'vf_rv_ge': ('!' + LT12, '>= is not <')}
+    cspec = ''
+    for f, (ens, what) in CMP.items():
+        cspec += 'function %s\n  __CPROVER_requires(n1 <= 2 && n2 <= 2)\n  __CPROVER_assigns()\n  __CPROVER_ensures(__CPROVER_return_value == (%s))\n' % (f, ens)
+    P.generated['c07c.spec'] = cspec
     HEAVY = lambda f: f.startswith('vf_rv_insert') or f.startswith('vf_rv_resize')
     u = P.unit('rv', 'shim.cpp', specs=['c07.spec'], inline=True, maxb=32)
-    ub = P.unit('rvb', 'shim.cpp', specs=['c07.spec'], inline=True, maxb=8, defines=['VF_ELEM=unsigned char'])
+    ub = P.unit('rvb', 'shim.cpp', specs=['c07.spec', 'c07c.spec'], inline=True, maxb=8, defines=['VF_ELEM=unsigned char'])
     for f, (req, ens, what) in C.items():
         capmax = 4
         if HEAVY(f):
@@ -94,4 +104,6 @@ def make(tier):
         else:
             u.contract(f, cls='B', unwind=34, bound='raw_vector<int> with capacity <= %d (all sizes, symbolic contents, every valid position/count); memmove/memcpy with symbolic size = byte-loop model of at most 32 bytes' % capmax,
                        backends=['sat', 'cvc5'], timeout=1200, what='raw_vector: ' + what, cbmc=['--memory-leak-check'])
+    for f, (ens, what) in CMP.items():
+        ub.contract(f, name=f + '_u8', cls='B', unwind=10, bound='two raw_vector<unsigned char> of at most 2 elements each, symbolic contents', backends=['sat', 'cvc5'], timeout=900, what='raw_vector comparison: ' + what, cbmc=['--memory-leak-check'])
     return P
